@@ -89,7 +89,7 @@ def vocab_lookup(call, vocab=VOCAB):
 
 
 class Eff:
-    __slots__ = ('kind', 'path', 'call', 'chain', 'must', 'forall', 'args')
+    __slots__ = ('kind', 'path', 'call', 'chain', 'must', 'forall', 'args', 'level', 'level_bb')
 
     def __init__(self, kind, path, call, chain, must, forall=None, args=None):
         self.kind = kind
@@ -99,6 +99,8 @@ class Eff:
         self.must = must
         self.forall = forall    # collection value if the effect is inside a FORALL loop
         self.args = args        # all argument values
+        self.level = None       # set by outcomes(): index of the site chain level the effect belongs to
+        self.level_bb = None    # block of the call (in that level's function) it was expanded from
 
     def where(self):
         return self.call.where() if self.call else (self.chain[-1].where() if self.chain else '-')
@@ -330,6 +332,10 @@ class Effects:
             args = tuple(self.subst(self.slicer.operand(fn, a), mapping) for a in c.args)
             out.append(Eff('CALLBACK', callee_v, c, chain, mode == 'must', forall, args))
             return
+        if c.decl in ('std::ops::Fn::call', 'std::ops::FnMut::call_mut', 'std::ops::FnOnce::call_once'):
+            args = tuple(self.subst(self.slicer.operand(fn, a), mapping) for a in c.args)
+            out.append(Eff('CALLBACK', args[0] if args else None, c, chain, mode == 'must', forall, args))
+            return
         ve = vocab_lookup(c, self.vocab)
         if ve:
             kind, pidx = ve
@@ -381,6 +387,84 @@ class Effects:
             v = self.slicer._call_value(fn, c, set(), 0)
             return [(self.subst(v, mapping), (site,))]
         return [(('tuple', ()), (site,))]
+
+
+class Outcome:
+    """one leaf success outcome of an entry function: the chain of success sites from the entry down
+    through tail calls, with the effects that must / may have happened and the branch decisions taken"""
+
+    def __init__(self, value, must, may, conds, sites):
+        self.value = value
+        self.must = must
+        self.may = may
+        self.conds = conds      # list of (Cond, substituted subject/value, level)
+        self.sites = sites
+
+    def decisions(self):
+        return [(c, subj, lv) for c, subj, lv in self.conds if c.kind == 'variant']
+
+    def region(self, cond, level, effs=None):
+        """effects that can only happen after the branch decision `cond` (taken at `level`)"""
+        effs = self.may if effs is None else effs
+        out = []
+        for e in effs:
+            if e.level is None:
+                continue
+            if e.level > level or (e.level == level and cond.fn.dominates(cond.target, e.level_bb)):
+                out.append(e)
+        return out
+
+    def before(self, cond, level, effs=None):
+        effs = self.must if effs is None else effs
+        return [e for e in effs if e.level is not None and
+                (e.level < level or (e.level == level and not cond.fn.dominates(cond.target, e.level_bb)))]
+
+
+def outcomes(E, fn, mapping=None, chain=(), stack=()):
+    from .guards import conditions
+    mapping = mapping or {}
+    res = []
+    level = len(stack)
+    for site in E.sites(fn):
+        must = []
+        for c, forall in E.must_calls(fn, [site.bb]):
+            if site.kind == 'tail' and c is site.call:
+                continue
+            n0 = len(must)
+            E._expand_call(fn, c, forall, 'must', mapping, chain, stack + (fn.path,), must)
+            for e in must[n0:]:
+                e.level, e.level_bb = level, c.bb
+        may = []
+        for c in E.may_calls(fn, [site.bb]):
+            if site.kind == 'tail' and c is site.call:
+                continue
+            n0 = len(may)
+            E._expand_call(fn, c, None, 'may', mapping, chain, stack + (fn.path,), may)
+            for e in may[n0:]:
+                e.level, e.level_bb = level, c.bb
+        conds = []
+        for cd in conditions(fn, site.bb, E.slicer):
+            subj = cd.subject if cd.subject is not None else cd.value
+            conds.append((cd, E.subst(subj, mapping), level))
+        if site.kind == 'tail':
+            callees = E.prog.callee_fns(site.call)
+            if callees:
+                for g in callees:
+                    if g.path in stack or g.path == fn.path or len(stack) > E.max_depth:
+                        res.append(Outcome(('recursion', g.path), must, may, conds, (site,)))
+                        continue
+                    m = E.call_mapping(fn, site.call, g, mapping)
+                    for sub in outcomes(E, g, m, chain + (site.call,), stack + (fn.path,)):
+                        res.append(Outcome(sub.value, must + sub.must, may + sub.may, conds + sub.conds, (site,) + sub.sites))
+                continue
+            v = E.subst(E.slicer._call_value(fn, site.call, set(), 0), mapping)
+            res.append(Outcome(v, must, may, conds, (site,)))
+        elif site.kind == 'ok':
+            v = E.subst(E.slicer._rvalue(fn, site.stmt, set(), 0, None), mapping)
+            res.append(Outcome(v, must, may, conds, (site,)))
+        else:
+            res.append(Outcome(('tuple', ()), must, may, conds, (site,)))
+    return res
 
 
 def _traits_methods(prog):
